@@ -237,6 +237,9 @@ def judgePolicy (tol : Bool) (ps : PS) (body : List String) : List String :=
   | none =>
     if !zeroAdmitsOK obs then [s!"viol policy/{k}/tua-zero-but-refused"]
     else if !blocksOK obs then [s!"viol policy/{k}/admitted-before-wait"]
+    -- adaptive: the promise also survives feedback that does not raise the reported rate
+    else if !(match ps with | .ad _ s0 => blocksOKR s0.p obs | _ => true) then
+      [s!"viol policy/{k}/admitted-before-wait-after-non-raising-feedback"]
     else if !(a.drains.all fun d => drainOK (if tol then 4 else 2) d.1 d.2) then
       [s!"viol policy/{k}/drain-stalls"]
     else match ps with
